@@ -120,7 +120,10 @@ def nl_mul(ex, st, a, b, node):
 
 
 def nl_div(ex, st, a, b, node):
-    return a / b
+    q = a / b
+    if z3.is_rational_value(z3.simplify(a)) and z3.simplify(a).as_fraction() == 1:
+        st.ghost.setdefault('recip', []).append((a, b, q))       # 1. / d, remembered for x ** (1. / d)
+    return q
 
 
 def nl_floordiv(ex, st, a, b, node):
@@ -144,6 +147,14 @@ def power(ex, st, a, b, node):
         r = T.pow2r(to_real(b))
         st.assume(r > 0)
         return r
+    roots = [(den, w) for (num, den, w) in st.ghost.get('recip', []) if z3.eq(to_real(b), w)] if not isinstance(b, (int, float)) else []
+    if roots:
+        used('x ** (1. / d) for x >= 0 -> the non-negative d-th root w (w^d = x)   [A-REAL]')
+        ex.oblige(st, 'safety', 'root-of-non-negative', Z(a) >= 0, node)
+        w = ex.fresh_real('root')
+        st.assume(w >= 0, z3.Implies(to_real(a) > 0, w > 0))
+        st.ghost.setdefault('root', []).append((to_real(a), roots[0][0], w))
+        return w
     raise Unsupported(f'power at line {node.lineno}')
 
 
@@ -633,6 +644,21 @@ def store(ex, st, base, sl_, v, node, base_node):
             st.vars[base_node.id] = VArr(b.shape, None, None, b.dtype)
             return
     raise Unsupported(f'store into {type(b).__name__} at line {node.lineno}')
+
+
+def arr_setitem(ex, st, b, sl_, v, node):
+    """Functional form of `A[idx] = v` for the patterns that have a denotation; None -> fall back to `store`."""
+    if isinstance(b, VArr) and b.ndim == 3 and b.tag == 'core' and b.t is not None and isinstance(sl_, ast.Tuple) \
+            and len(sl_.elts) == 3 and not any(isinstance(e, ast.Slice) for e in sl_.elts):
+        i0 = ex.ev(sl_.elts[0], st)
+        i2 = ex.ev(sl_.elts[2], st)
+        if i0 == 0 and i2 == 0:
+            used('G[0, j, 0] = x on a core with r1 = r2 = 1 -> cset(G, j, x)')
+            ex.oblige(st, 'call-pre', 'element-store-on-a-rank-one-core', z3.And(Z(b.shape[0]) == 1, Z(b.shape[2]) == 1), node)
+            j = norm_index(ex, st, ex.need_num(st, ex.ev(sl_.elts[1], st), node), b.shape[1], node, 'mode-index')
+            x = to_real(ex.need_num(st, v, node))
+            return VArr(b.shape, T.cset(b.t, Z(j), x), 'core')
+    return None
 
 
 def unwrap_elem(ex, st, seq, v, node):
@@ -1142,6 +1168,8 @@ def m_zeros(ex, st, args, kwargs, node):
     used(f'{name}(shape) -> array of that shape')
     if name == 'np.zeros' and len(shp) == 3:
         return VArr(shp, T.zc(Z(shp[0]), Z(shp[1]), Z(shp[2])), 'core', dt)
+    if name == 'np.ones' and len(shp) == 3:
+        return VArr(shp, T.onesc(Z(shp[0]), Z(shp[1]), Z(shp[2])), 'core', dt)
     if name == 'np.zeros' and len(shp) == 2:
         return VArr(shp, T.zeros(Z(shp[0]), Z(shp[1])), 'mat', dt)
     return VArr(shp, None, None, dt)
